@@ -44,6 +44,27 @@ func main() {
 		rules.DebugProto(c, os.Args[2:])
 		return
 	}
+	if os.Args[1] == "debug-unused-params" {
+		c := core.NewCtx("DBG", "quick")
+		c.Load(os.Args[2:]...)
+		c.BuildSSA()
+		for _, rel := range os.Args[2:] {
+			for _, fn := range c.SrcFuncs(rel) {
+				for i, p := range fn.Params {
+					if i == 0 && fn.Signature.Recv() != nil {
+						continue
+					}
+					if p.Name() == "_" || p.Name() == "" {
+						continue
+					}
+					if len(*p.Referrers()) == 0 {
+						fmt.Printf("%s: %s.%s ignores parameter %s %s\n", c.Position(fn.Pos()), rel, core.FuncName(fn), p.Name(), p.Type())
+					}
+				}
+			}
+		}
+		return
+	}
 	if os.Args[1] == "debug-siblings" {
 		c := core.NewCtx("DBG", "quick")
 		rules.DebugSiblings(c)
